@@ -97,3 +97,64 @@ fn c07_mh_seeded_run_is_reproducible() {
     };
     assert_eq!(run(), run());
 }
+
+/// C11 — NaN diagnostics may turn summary fields into NaN but must never make the summary fail.
+#[test]
+fn c11_basic_stats_with_nan_does_not_fail() {
+    use mini_mcmc::stats::basic_stats;
+    // a deterministic mixture of finite values and NaN, long enough for the non-trivial sort paths
+    for len in [8usize, 21, 33, 64, 200, 1000] {
+        for stride in [2usize, 3, 5, 7] {
+            let data: Vec<f32> = (0..len)
+                .map(|i| if i % stride == 0 { f32::NAN } else { ((i * 7919) % 101) as f32 })
+                .collect();
+            let _ = basic_stats("rhat", ndarray::Array1::from_vec(data));
+        }
+    }
+}
+
+/// Reference split R-hat (f64): sqrt(var+/W) on the two halves of every chain.
+fn reference_split_rhat(x: &[Vec<f64>]) -> f64 {
+    let n = x[0].len();
+    let half = n / 2;
+    let mut halves: Vec<Vec<f64>> = vec![];
+    for ch in x {
+        halves.push(ch[..half].to_vec());
+    }
+    for ch in x {
+        halves.push(ch[n - half..].to_vec());
+    }
+    let m = halves.len() as f64;
+    let nh = half as f64;
+    let means: Vec<f64> = halves.iter().map(|h| h.iter().sum::<f64>() / nh).collect();
+    let grand = means.iter().sum::<f64>() / m;
+    let w = halves
+        .iter()
+        .zip(means.iter())
+        .map(|(h, mu)| h.iter().map(|v| (v - mu) * (v - mu)).sum::<f64>() / nh)
+        .sum::<f64>()
+        / m;
+    let b_over_n = means.iter().map(|mu| (mu - grand) * (mu - grand)).sum::<f64>() / (m - 1.0);
+    let var_plus = (nh - 1.0) / nh * w + b_over_n;
+    (var_plus / w).sqrt()
+}
+
+/// C11.rhat_formula — split R-hat is sqrt(var+/W): it grows when chains disagree.
+#[test]
+fn c11_split_rhat_is_sqrt_varplus_over_w() {
+    use mini_mcmc::stats::split_rhat_mean_ess;
+    let n = 40usize;
+    for shift in [0.0f64, 1.0, 10.0, 100.0] {
+        let chains: Vec<Vec<f64>> = (0..3)
+            .map(|c| (0..n).map(|t| ((t * 7 + c * 3) % 11) as f64 * 0.5 + shift * c as f64).collect())
+            .collect();
+        let want = reference_split_rhat(&chains);
+        let arr = ndarray::Array3::from_shape_fn((3, n, 1), |(c, t, _)| chains[c][t] as f32);
+        let (rhat, _ess) = split_rhat_mean_ess(arr.view());
+        let got = rhat[0] as f64;
+        assert!(
+            (got - want).abs() <= 1e-3 * want.abs(),
+            "shift {shift}: library split R-hat {got}, sqrt(var+/W) = {want}"
+        );
+    }
+}
